@@ -214,6 +214,68 @@ theorem passive_without_seal_loses :
     let r := runWith lsStepNoSeal .passive (.p0, w5) [.ls 0, .app 0, .ls 0, .ls 0, .ls 9, .ls 0, .ls 0, .ls 0]
     r.1 = .done ∧ r.2.lost = true := by decide
 
+/-! ### Error exits (repair 98a2369): the database file may run ahead only while `checkpointUnresolved` is raised
+
+`checkpoint_protocol_safe` speaks about runs that reach `.done`.  `checkpointWithExecutor` can
+also return with an error at any step (typically the sequence bump hitting SQLITE_BUSY).  At the
+program points between a non-PASSIVE checkpoint and the copy / boundary snapshot that follows it
+(`n2 … n5`) the invariant `J` does not hold: the checkpoint may have backfilled frames that were
+never copied.  The repaired code raises `checkpointUnresolved` on every error exit once a
+non-PASSIVE checkpoint has been issued (a superset of these points), refuses snapshots while it is
+raised, and the next verify demands a snapshot sync. -/
+
+/-- Program points at which an error exit leaves the flag raised (non-PASSIVE, checkpoint issued, follow-up incomplete). -/
+def midNonPassive : PC → Bool
+  | .n2 | .n3 | .n4 | .n5 => true
+  | _ => false
+
+/-- **An error exit anywhere is safe.** For every mode, every schedule and every point at which
+    `checkpointWithExecutor` might return with an error: either the invariant holds there (nothing
+    lost, database file not ahead of the replicated position — snapshots at the position are
+    consistent), or the exit is one that raises `checkpointUnresolved`. -/
+theorem error_exit_safe (m : Mode) (w0 : W) (h0 : J w0) (hl : w0.lsLock = false) (evs : List Ev) :
+    let s := run m (start m, w0) evs
+    midNonPassive s.1 = true ∨ J s.2 := by
+  intro s
+  have hs : Inv m (start m) w0 := by cases m <;> exact ⟨h0, hl⟩
+  have hi : Inv m s.1 s.2 := inv_run m evs (start m) w0 hs
+  cases hpc : s.1 <;> rw [hpc] at hi <;> simp only [Inv] at hi
+  case p0 | p1 | p5 | p6 | n0 | n1 | done => exact Or.inr hi.1
+  case p2 | p4 | n6 => exact Or.inr hi.1
+  case p3 => exact Or.inr hi.1
+  case n2 | n3 | n4 | n5 => exact Or.inl rfl
+
+/-- **The snapshot sync that the raised flag forces re-establishes the invariant**, whatever was
+    backfilled or lost in between. -/
+theorem unresolved_snapshot_restores_J (m : Mode) (w0 : W) (h0 : J w0) (hl : w0.lsLock = false) (evs : List Ev)
+    (hmid : midNonPassive (run m (start m, w0) evs).1 = true) :
+    J (snapshot (run m (start m, w0) evs).2) := by
+  have hs : Inv m (start m) w0 := by cases m <;> exact ⟨h0, hl⟩
+  have hi := inv_run m evs (start m) w0 hs
+  generalize run m (start m, w0) evs = s at hi hmid
+  obtain ⟨pc, w⟩ := s
+  have hb : w.backfilled ≤ w.frames := by
+    cases pc <;> simp [midNonPassive] at hmid <;> simp only [Inv] at hi
+    · exact hi.2.2.1
+    · exact hi.2.2.1
+    · exact hi.2
+    · exact hi.2
+  exact ⟨rfl, hb, Nat.le_refl _⟩
+
+/-- Witness that the points are real: FULL checkpoint, a commit between the copy and the checkpoint,
+    error exit right after the checkpoint — the database file is ahead of the replicated position. -/
+theorem error_exit_after_checkpoint_runs_ahead :
+    let r := run .full (.n0, w5) [.ls 0, .app 0, .ls 6]
+    midNonPassive r.1 = true ∧ r.2.copied < r.2.backfilled := by decide
+
+/-- (T) the error-exit hook: guarded by "not PASSIVE", armed before `execCheckpoint` is called (so every
+    error exit from the checkpoint on — a superset of `midNonPassive` — raises the flag), and it raises
+    the flag exactly when the function returns an error. -/
+theorem gen_unresolved_defer :
+    Gen.CkptProtocol.unresolvedDefer =
+      ("mode != CheckpointModePassive", "armed before execCheckpoint", "{ if err != nil { exec.state.checkpointUnresolved = true } }") := by
+  unfold Gen.CkptProtocol.unresolvedDefer; rfl
+
 /-! ### (T) the step order in db.go is the modelled protocol -/
 
 /-- The protocol-relevant calls of `checkpointWithExecutor`, in source order, with their guards. -/
